@@ -13,9 +13,11 @@
          broken rule(s): beyond consumed + window (stream or connection) -> FLOW_CONTROL_ERROR;
          final size changed / data beyond final size / final size below data already received ->
          FINAL_SIZE_ERROR; offset + length above 2^62-1 -> FLOW_CONTROL_ERROR or
-         FRAME_ENCODING_ERROR (19.8).  Section 11 allows no generic substitute here:
-         PROTOCOL_VIOLATION is "an error with protocol compliance that was not covered by more
-         specific error codes" and INTERNAL_ERROR is for implementation faults (20.1).
+         FRAME_ENCODING_ERROR (19.8); or with one of the generic codes PROTOCOL_VIOLATION /
+         INTERNAL_ERROR, which section 11 allows in place of any specific code ("a generic error
+         code (such as PROTOCOL_VIOLATION or INTERNAL_ERROR) can always be used in place of
+         specific error codes").  Another *specific* code (e.g. FINAL_SIZE_ERROR for a pure flow
+         control violation) is not "applicable" and is refused.
        - a frame that breaks no rule and stays within the largest limits actually transmitted must
          be accepted.
        - between the largest transmitted limit and consumed + window either answer (Ok or
@@ -83,11 +85,16 @@ Definition analyse (j : jstate) (i : nat) (e : N) (fin_viol : bool) : viol :=
 
 Definition any_viol (v : viol) : bool := v_big v || v_flow v || v_final v.
 
-(* is code [r] one the RFC names for a rule that was broken? *)
+(* is code [r] one the RFC names for a rule that was broken, or one of the generic codes that
+   section 11 allows in its place ("a generic error code (such as PROTOCOL_VIOLATION or
+   INTERNAL_ERROR) can always be used in place of specific error codes")? *)
+Definition C_PROTOCOL_VIOLATION : Z := 10.
+Definition C_INTERNAL : Z := 1.
 Definition code_permitted (v : viol) (r : Z) : bool :=
   (v_big v && ((r =? C_FLOW)%Z || (r =? C_FRAME)%Z))
   || (v_flow v && (r =? C_FLOW)%Z)
-  || (v_final v && (r =? C_FINAL)%Z).
+  || (v_final v && (r =? C_FINAL)%Z)
+  || ((v_big v || v_flow v || v_final v) && ((r =? C_PROTOCOL_VIOLATION)%Z || (r =? C_INTERNAL)%Z)).
 
 (* verdict on the answer [r] (0 = accepted) to a frame with analysis [v] *)
 Definition answer_ok (strict : bool) (v : viol) (r : Z) : bool :=
